@@ -31,9 +31,10 @@ RULE = ("one state graph per (ansatz class, molecule, encoding, ordering, option
         "update_var_params took the incremental path (circuit object kept, gate parameters changed)")
 TOL = 1e-8
 ASSUMPTIONS = [
-    "vector alphabet per ansatz (K=5 quick / K=8 thorough) built from n_var_params: zero, alternating sign, one-hot "
-    "(exact zeros elsewhere), repeated value + one entry beyond 2*pi, dense generic (+ all-equal, one-hot first/last in "
-    "thorough); nothing is claimed for other vectors; histories up to depth 2 (quick) / 3 (thorough), ADAPT one deeper",
+    "vector alphabet per ansatz (K=6 quick / K=9 thorough) built from n_var_params: zero, alternating sign, one-hot "
+    "(exact zeros elsewhere), repeated value + one entry beyond 2*pi, dense generic, dense with one exact zero (+ all-equal, "
+    "one-hot first/last in thorough); nothing is claimed for other vectors; histories up to depth 2 (quick) / 3 (thorough), "
+    "ADAPT depth 3 in both tiers with three start objects (0, 1, 2 pre-loaded operators, at most 3 operators)",
     "molecules: H2, H4 (square-ish), H4 triplet, H3 doublet (ROHF), H2 stretched / H3 / H4 UHF, all sto-3g, H2 3-21g for "
     "pUCCD; <= 8 qubits",
     f"states compared up to one global phase with 2-norm tolerance {TOL} using the numpy reference simulator mc/ref/statevec "
@@ -225,11 +226,11 @@ def instances(tier):
             add(cls, "H4", mp, utd, cost=3)
         for order in (1, 2):
             for nav in (False, True):
-                add("VSQS", "H2", mp, utd, cost=2, order=order, nav=nav)
-        for so in ([], [2], [0, 1]):
-            add("ADAPT", None, mp, utd, cost=4, n_so=4, n_el=2, start_ops=so)
+                add("VSQS", "H2", mp, utd, cost=4 * order * order, order=order, nav=nav)
+        for so, c in (([], 40), ([2], 20), ([0, 1], 10)):
+            add("ADAPT", None, mp, utd, cost=c, n_so=4, n_el=2, start_ops=so)
         if not Q:
-            add("ADAPT", None, mp, utd, cost=8, n_so=8, n_el=4, start_ops=[1])
+            add("ADAPT", None, mp, utd, cost=25, n_so=8, n_el=4, start_ops=[1])
     for rot in ("euler", "real"):
         for ref in ("HF", "zero"):
             add("HEA", cost=1, rot=rot, ref=ref)
@@ -269,8 +270,10 @@ def alphabet(n, K, seed, tau_from=0):
     rep = [r] * n
     rep[tau_from + m // 3] = 2 * PI + 0.61
     alt = [g3 if i % 2 == 0 else -g3 for i in range(n)]
+    hole = list(dense)
+    hole[tau_from + m // 2] = 0.0   # full support minus one term: the cached positions of the later terms shift by one
     full = [("zero", [0.0] * n), ("alt", alt), ("hot-mid", hot(m // 2, -g2)), ("rep-2pi", rep), ("dense", dense),
-            ("equal", [g1] * n), ("hot-first", hot(0, g1)), ("hot-last", hot(m - 1, g3))]
+            ("dense-one-zero", hole), ("equal", [g1] * n), ("hot-first", hot(0, g1)), ("hot-last", hot(m - 1, g3))]
     out, seen = [], set()
     for name, v in full[:K]:
         t = tuple(v)
@@ -601,8 +604,11 @@ def _short(v):
 # ---------------------------------------------------------------------------------------------------------------------
 # runner interface
 
+MAX_STATES = 6000
+
+
 def tier_params(tier):
-    return (5, 2) if tier == "quick" else (8, 3)
+    return (6, 2) if tier == "quick" else (9, 3)
 
 
 def shards(tier, seed):
@@ -611,7 +617,7 @@ def shards(tier, seed):
     out = []
     for i in sorted(insts, key=lambda d: -d.get("cost", 1)):
         inst = {k: v for k, v in i.items() if k != "cost"}
-        dep = depth + 1 if inst["cls"] == "ADAPT" else depth
+        dep = 3 if inst["cls"] == "ADAPT" else depth
         out.append({"kind": label(inst), "inst": inst, "K": K, "depth": dep, "seed": seed})
     return out
 
@@ -639,7 +645,7 @@ def run_shard(shard):
         n0 = int(a0.n_var_params)
         start["vec"] = dict(g.vectors(n0))["dense" if n0 else "empty"]
         start["name"] = "dense"
-        acc = stategraph.explore(g, [start], shard["depth"], jobs=1, max_states=600, check_deepcopy=True)
+        acc = stategraph.explore(g, [start], shard["depth"], jobs=1, max_states=MAX_STATES, check_deepcopy=True)
     cls = inst["cls"]
     acc.count(f"graphs.{cls}")
     acc.count(f"states.{cls}", acc.states)
@@ -649,8 +655,10 @@ def run_shard(shard):
         if acc.states > Kp:
             acc.count(f"graphs_with_more_than_K+1_states.{cls}")
     for k in list(acc.extra):
-        if k.startswith("states_after_depth_") or k == "frontier_unexpanded":
+        if k.startswith("states_after_depth_"):
             acc.extra.pop(k)
+    if acc.extra.get("frontier_unexpanded", 0) == 0:
+        acc.count("graphs_closed_below_depth_bound")
     acc.sample({"instance": g.lab, "n_var_params": n0, "states": acc.states, "transitions": acc.transitions,
                 "alphabet": [nm for nm, _ in g.vectors(n0)]}, cap=1)
     return acc
@@ -685,23 +693,25 @@ def bounds(tier, seed):
     by = {}
     for i in insts:
         by[i["cls"]] = by.get(i["cls"], 0) + 1
-    return {"K": K, "depth": depth, "depth_ADAPT": depth + 1, "instances": len(insts), "instances_by_class": by,
+    return {"K": K, "depth": depth, "depth_ADAPT": 3, "instances": len(insts), "instances_by_class": by,
             "alphabet_example_n4": alphabet(4, K, seed), "seed_delta": runner.seed_delta(seed), "tolerance": TOL,
             "wrong_lengths": ["0", "n-1", "n+1"], "entry_points": ["set_var_params", "build_circuit", "update_var_params"],
-            "max_states_per_graph": 600}
+            "max_states_per_graph": MAX_STATES}
 
 
 def selftest():
     SV.selftest()
     for n in (1, 2, 3, 9, 34):
-        for K in (5, 8):
+        for K in (6, 9):
             vs = alphabet(n, K, 0, tau_from=(16 if n == 34 else 0))
             assert all(len(v) == n for _, v in vs) and len({tuple(v) for _, v in vs}) == len(vs)
             d = dict(vs)
             assert all(x == 0.0 for x in d["zero"]) and all(abs(x) > 1e-3 for x in d["dense"])
             assert sum(1 for x in d["hot-mid"] if x != 0.0) == 1 and max(d["rep-2pi"]) > 2 * PI
+            if n > 1:
+                assert sum(1 for x in d["dense-one-zero"] if x == 0.0) == 1
             if n == 34:
-                assert all(x == 0.0 for x in d["hot-mid"][:16])
+                assert all(x == 0.0 for x in d["hot-mid"][:16]) and d["dense-one-zero"].index(0.0) >= 16
     assert alphabet(0, 5, 0) == [("empty", [])]
     # the canonical projection ignores the sign of zero and sub-1e-12 noise, and sees a 1e-9 change
     assert _r(-0.0) == 0.0 and repr(_r(-0.0)) == "0.0" and _r(0.1 + 1e-14) == _r(0.1) and _r(0.1 + 1e-9) != _r(0.1)
